@@ -31,38 +31,56 @@ def main():
             W.direct_objects(ci)
         if any(j.get("valid") for j in jobs[first:]):
             W.seal(0, fill(16, 1), fill(12, 2), b"x", b"y", 1)
-    if "buf" in kinds:
+    if kinds & {"buf", "bufnew"}:
         from aioquic import _buffer  # noqa
     if kinds & {"session", "hostile"}:
         import aioquic.quic.connection  # noqa
         W.install_wrappers()
-    for i in range(first, len(jobs)):
-        j = jobs[i]
-        W.job = i
-        W.emit({"ev": "job", "i": i})
+    seed = int(sys.argv[4]) if len(sys.argv) > 4 else 1
+    i = first
+    while i < len(jobs):
+        # a forked child runs jobs i, i+1, ... until it finishes or dies (a fork of
+        # an ASan process is expensive, so: one fork per death, not per job)
+        rfd, wfd = os.pipe()
         pid = os.fork()
         if pid == 0:
+            os.close(rfd)
             code = 0
             try:
                 fd = os.open(errpath, os.O_WRONLY | os.O_CREAT | os.O_TRUNC, 0o644)
                 os.dup2(fd, 2)
-                rnd.seed((int(sys.argv[4]) if len(sys.argv) > 4 else 1) * 100003 + j.get("i", i))
-                getattr(W, "job_" + j["k"])(j)
+                for k in range(i, len(jobs)):
+                    j = jobs[k]
+                    W.job = k
+                    os.write(wfd, b"%d\n" % k)
+                    W.emit({"ev": "job", "i": k})
+                    rnd.seed(seed * 100003 + j.get("i", k))
+                    getattr(W, "job_" + j["k"])(j)
+                    W.emit({"ev": "done", "i": k})
             except BaseException:               # noqa: a bug of the worker itself
                 import traceback
                 os.write(2, ("WORKER-ERROR\n" + traceback.format_exc()).encode())
                 code = 3
             os._exit(code)
+        os.close(wfd)
+        started = b""
+        while True:
+            chunk = os.read(rfd, 65536)
+            if not chunk:
+                break
+            started += chunk
+        os.close(rfd)
         _, status = os.waitpid(pid, 0)
-        if status != 0:
-            rc = -(status & 0x7F) if status & 0x7F else status >> 8
-            try:
-                err = open(errpath, errors="replace").read()
-            except OSError:
-                err = ""
-            W.emit({"ev": "death", "job": i, "rc": rc, "stderr": err[-12000:]})
-        else:
-            W.emit({"ev": "done", "i": i})
+        if status == 0:
+            break
+        last = int(started.split()[-1]) if started.split() else i
+        rc = -(status & 0x7F) if status & 0x7F else status >> 8
+        try:
+            err = open(errpath, errors="replace").read()
+        except OSError:
+            err = ""
+        W.emit({"ev": "death", "job": last, "rc": rc, "stderr": err[-12000:]})
+        i = last + 1
     try:
         os.unlink(errpath)
     except OSError:
@@ -198,14 +216,49 @@ class Worker:
     def job_buf(self, j):
         from aioquic import _buffer
         self.src = "direct"
-        if j.get("content") is not None:
-            buf = _buffer.Buffer(data=bytes(j["content"]))
-        else:
-            buf = _buffer.Buffer(capacity=j["cap"])
-        if j.get("pos"):
-            buf.seek(j["pos"])
+
+        def make():
+            if j.get("content") is not None:
+                buf = _buffer.Buffer(data=bytes(j["content"]))
+            else:
+                buf = _buffer.Buffer(capacity=j["cap"])
+            if j.get("pos"):
+                buf.seek(j["pos"])
+            return buf
+        buf = make()
         for call in j["calls"]:
+            if j.get("fresh"):          # every call from the same start state
+                buf = make()
             self.buf_call(buf, call)
+
+    def job_bufnew(self, j):
+        """Buffer(capacity=v) for boundary / negative / huge v; an accepted
+        buffer is then probed (the probe is part of the bracketed call)."""
+        from aioquic import _buffer
+        self.src = "direct"
+        v = j["capacity"]
+        z = enc_int(0)
+        self.emit({"ev": "b", "job": self.job, "ep": "Buffer.new", "m": "new", "cap": 0, "pos": 0, "lead": 0,
+                   "a": enc_int(v), "b": z, "n": 0, "src": self.src, "argv": [str(v)]})
+        kind, pos2, cap2, usable = "ok", -1, -1, 1
+        try:
+            buf = _buffer.Buffer(capacity=v)
+        except BaseException as e:          # noqa
+            kind = type(e).__name__
+        else:
+            pos2, cap2 = buf.tell(), buf.capacity
+            try:
+                if cap2 != 0:
+                    buf.push_uint8(7)
+                    buf.seek(0)
+                    usable = 1 if buf.pull_uint8() == 7 else 0
+                    buf.seek(0)
+                else:
+                    usable = 1 if buf.eof() else 0
+            except BaseException:           # noqa
+                usable = 0
+        self.emit({"ev": "e", "job": self.job, "out": {"kind": kind, "ret": -1}, "pos2": pos2, "cap2": cap2,
+                   "usable": usable})
 
     def buf_call(self, buf, call):
         m, args = call["m"], call.get("args", [])
